@@ -275,11 +275,15 @@ func (x *Exec) callFn(fr *Frame, st *State, fn *ssa.Function, args []Value, bind
 		}
 		return res
 	}
-	return x.unknownCall(fr, st, shortFuncName(fn), fn.Signature, args, inModule(fn))
+	// (recorded under the same name as the call log: the generic origin for instances)
+	return x.unknownCall(fr, st, strings.ReplaceAll(full, modulePrefix, ""), fn.Signature, args, inModule(fn))
 }
 
 // unknownCall models a call to a function without body, model or contract.
 func (x *Exec) unknownCall(fr *Frame, st *State, name string, sig *types.Signature, args []Value, clobberAll bool) []Outcome {
+	if os.Getenv("VCHECK_DEBUG") != "" {
+		fmt.Fprintf(os.Stderr, "  [unknown call recorded as %q]\n", name)
+	}
 	if clobberAll {
 		x.c.note("call to %s not inlined (recursive, too deep or no body) and has no contract: all heap havocked", name)
 		x.frameWrite(st, "*", nil)
